@@ -59,9 +59,16 @@ fn scripted(legacy: bool, reply: &Reply) -> (Option<Outcome>, Option<String>) {
     let reply = reply.clone();
     exec.spawn("scripted-broker", async move {
         let Ok(msg) = tb.receive().await else { return };
+        // the connect payload is written before any version is agreed: it must be readable by a
+        // 1.14 broker, i.e. well-formed and free of the 1.20 container encodings
+        let epoch = |v: &[u8]| match refcodec::decode_all(v, refcodec::NO_UTF8) {
+            Ok(d) if !refcodec::has_v2_kind(&d.kinds) => "",
+            Ok(_) => " [payload uses 1.20 container encodings]",
+            Err(_) => " [payload ill-formed]",
+        };
         *f2.borrow_mut() = Some(match &msg {
-            Message::Connect2(c) => format!("Connect2 {}.{}", c.major_version, c.minor_version),
-            Message::Connect(c) => format!("Connect {}", c.version),
+            Message::Connect2(c) => format!("Connect2 {}.{}{}", c.major_version, c.minor_version, epoch(&c.value)),
+            Message::Connect(c) => format!("Connect {}{}", c.version, epoch(&c.value)),
             other => format!("{other:?}"),
         });
         let out: Option<Message> = match reply {
